@@ -1110,13 +1110,16 @@ def _count_plan(f, tier):
     s = gen.run_seed()
     quick = tier == "quick"
     if f.count == "loop":   # python loop over the n samples with m-vectors: n stays short
-        budget, n_lo, n_hi = (3e5, 200, 1500) if quick else (4e6, 300, 8000)
+        budget, n_lo, n_hi = (2e5, 120, 1500) if quick else (4e6, 300, 8000)
     else:                   # vectorised (m x n) temporaries
         budget, n_lo, n_hi = (8e5, 300, 20000) if quick else (1.2e7, 300, 200000)
     m_top = _top(5000, s, "mtop", f.name)
     rungs = gen.ladder(40, 4400, 8 if quick else 14, "c05m:" + f.name)
     mined = [c for c in gen.mined_sizes(40, 5000, 6, "c05m:" + f.name)]
     alts = ["int", "list"] if _hh(s, "malt", f.name) % 2 else ["list", "int"]
+
+    if quick and not f.primary:
+        budget = budget / 2.5
 
     def n_of(m):
         cap_n = CAPS[f.cap][0 if quick else 1]
@@ -1180,6 +1183,8 @@ def _own_enum(tier, shard, nshards):
     i = 0
     for n in sizes:
         for k, seq in enumerate(_OWN_SEQS):
+            if quick and n != sizes[-1] and _hh(s, "ownseq", n) % 2 != k:
+                continue  # (quick: one of the two histories per length, both at the longest)
             for acc in ([True] if quick else [True, False]):
                 h = _hh(s, "own", n, k, acc)
                 ha = "float" if k == 0 else hows[h % 5]
@@ -1209,4 +1214,4 @@ core.enum_clause(CLAUSES, "mid-range-ownership", _own_enum, quick_shards=2,
                       "non-trivial = a mutator applied after a reset_values",
                  oracle="the ownership invariants after every step (caller containers equal their snapshots; a caller write does not change "
                         "Signal.values; values 1-d numeric ndarray with len == npts; time == dt*arange(npts) exactly)",
-                 exhaustive_note="sizes x 2 histories at this seed", min_nontrivial=0.5)(_own_check)
+                 exhaustive_note="sizes x histories at this seed (quick: one of the two histories per length, both at the longest)", min_nontrivial=0.5)(_own_check)
